@@ -135,7 +135,13 @@ func ctlHelper() int {
 		if scenario == "container_initcmd" {
 			kInitCommand = []string{"/probe/" + filepath.Base(probePath), "ignore", "sleep", "30000"}
 		}
-		ct, err := kBuildContainer(nil, nil, stderr)
+		// (with a credential generator the init changes identity for what it does on behalf of programs; whatever it
+		// arranged for the death of its parent must survive that)
+		var cred container.CredGenerator
+		if os.Getenv("VERIF_CTL_CRED") == "1" {
+			cred = credGen{10007, 10008}
+		}
+		ct, err := kBuildContainer(nil, cred, stderr)
 		if err != nil {
 			fmt.Fprintln(os.Stderr, "ctl: build:", err)
 			return 2
@@ -246,7 +252,11 @@ func c16Run(c *vcore.Ctx) *vcore.Violation {
 	if spawn {
 		c.Event("spawned_descendant")
 	}
-	cmd.Env = append(os.Environ(), fmt.Sprintf("VERIF_CTL_SPAWN=%d", map[bool]int{true: 1, false: 0}[spawn]), "VERIF_HELPER=ctl", "VERIF_CTL_SCENARIO="+scenario, "VERIF_CTL_DIR="+c.Dir, fmt.Sprintf("VERIF_CTL_LONG=%d", map[bool]int{true: 1, false: 0}[long]))
+	withCred := strings.HasPrefix(scenario, "container") && src.Bool(1, 2, "container_cred")
+	if withCred {
+		c.Event("container_cred")
+	}
+	cmd.Env = append(os.Environ(), fmt.Sprintf("VERIF_CTL_CRED=%d", map[bool]int{true: 1, false: 0}[withCred]), fmt.Sprintf("VERIF_CTL_SPAWN=%d", map[bool]int{true: 1, false: 0}[spawn]), "VERIF_HELPER=ctl", "VERIF_CTL_SCENARIO="+scenario, "VERIF_CTL_DIR="+c.Dir, fmt.Sprintf("VERIF_CTL_LONG=%d", map[bool]int{true: 1, false: 0}[long]))
 	cmd.Stderr = nil
 	if err := cmd.Start(); err != nil {
 		vcore.Harnessf("start helper: %v", err)
